@@ -26,7 +26,26 @@ THE PROPERTY (a behavioural property of the library that must hold for every inp
   why the tests cannot settle it: {rec['why_tests_cant']}
   code it is anchored in: {json.dumps(rec['anchors'])}
 """
-if mode == 'hard':
+if mode == 'hard3':
+    print(f"""You are helping to evaluate a verification tool by writing realistic, hard-to-notice defects ("seeded changes").
+
+{common}
+YOUR TASK: produce THREE different, independent changes to the library source under {wt}/src/emsarray (call them A, B and C), each of which
+  1. BREAKS the property above (for some input / configuration / history the statement becomes false),
+  2. still imports/compiles and keeps every currently passing test of the existing suite passing (unchanged test files),
+  3. needs something SPECIFIC to manifest; ordinary use of the sample datasets must not expose it.
+Two earlier rounds already produced the obvious edits INSIDE the central functions named under "mechanism" above (changed predicates, removed sorts, flipped comparisons, off-by-one slices, swapped arguments, early returns, widened guards). This round must go elsewhere:
+  * at least TWO of your three changes must be made OUTSIDE those central functions: in a helper they call, a property or cached_property they read, a dataclass / enum / module constant, a default argument value, the accessor or registry wiring, the command line wiring, a convention subclass's override, or ANOTHER convention's implementation of the same interface (the property quantifies over every convention);
+  * at least ONE change must only matter through an INTERACTION: two call sites that must agree (writer and reader of a table, two siblings implementing one interface, a cache and the code that fills it, a value computed in one function and relied on in another), a value that becomes stale after a previous call, or an input class from the quantifier that the code treats in a separate branch (one-based indexes, transposed storage, masked entries, several grid kinds, coordinates held as plain variables, 1xN shapes, empty selections);
+  * still 1-15 changed lines each, looking like an honest mistake or a well-meant clean-up, with a comment or naming that makes it look deliberate.
+For each change write a demonstration: a standalone Python program that exits with status 0 when the property holds and 1 (printing what went wrong) when violated; it must exit 0 on the UNMODIFIED tree and 1 with the change applied. Locate test data and helper modules relative to the current working directory (always the worktree root), never relative to __file__.
+
+DELIVERABLES - create the directory {wt}/seed_out and put there, for X in (A, B, C):
+  {wt}/seed_out/patch_X.diff   output of `git diff -- src` with ONLY change X applied (each patch applies alone to the unmodified tree with `git apply`)
+  {wt}/seed_out/demo_X.py       run as: cd {wt} && PYTHONPATH={wt}/src:{wt} /venv/bin/python seed_out/demo_X.py
+  {wt}/seed_out/notes_X.md      3-8 lines: what the change is, why it breaks the property, what it needs to manifest, what you ran (suite before/after, demo exit codes)
+Leave the worktree with NO change applied at the end (git checkout -- src), keep seed_out/. Finish with a short report. If you cannot find three good changes deliver as many as you can.""")
+elif mode == 'hard':
     print(f"""You are helping to evaluate a verification tool by writing realistic, hard-to-notice defects ("seeded changes").
 
 {common}
